@@ -384,7 +384,7 @@ impl Prop for C19 {
         false
     }
     fn rule(&self) -> String {
-        "query family: 14 value shapes (1, -1, 0, integers, terminating and repeating fractions, 1e13, 1e-13, 15-digit decimals, a value one ulp below 1) x 9 unit shapes, negative tiny/huge values, all ordered pairs and triples (thorough: quadruples) of 6 result kinds in one query, thorough: every ordered pair of 62 quantities as a product and a quotient, every documented unit under every prefix symbol, every shipped fact by its own words, (none, m, km, pluralising `decade`/`btu`, m/s, no-numerator /s, m^2, compound) in two spellings, fact phrases with a unique best match, README examples, erroring queries, multi-result queries with an error between values, degenerate input; x {default, --exact}; each run through the real `any` binary (built from /repo by the check, on-disk index in a private data directory) and compared with the text rebuilt from the library's results by the stated rule (line per Ok result; `error: <message>` diagnostic per Err result, in order; a diagnostic may be on stdout, in order with the value lines, or on stderr, in order among the diagnostics). Non-trivial = the query yields at least one result; distinct = distinct (query, mode)".into()
+        "query family: 14 value shapes (1, -1, 0, integers, terminating and repeating fractions, 1e13, 1e-13, 15-digit decimals, a value one ulp below 1) x 9 unit shapes, negative tiny/huge values, all ordered pairs and triples (thorough: quadruples) of 6 result kinds in one query, thorough: every ordered pair of 62 quantities as a product and a quotient, every documented unit under every prefix symbol, every shipped fact by its own words, (none, m, km, pluralising `decade`/`btu`, m/s, no-numerator /s, m^2, compound) in two spellings, fact phrases with a unique best match, README examples, erroring queries, multi-result queries with an error between values, degenerate input; x {default, --exact}; each run through the real `any` binary (built from /repo by the check, on-disk index in a private data directory) and compared with the text rebuilt from the library's results by the stated rule (line per Ok result; a diagnostic header line (starting at the margin) that carries the error's message per Err result, in order; a diagnostic may be on stdout, in order with the value lines, or on stderr, in order among the diagnostics). Non-trivial = the query yields at least one result; distinct = distinct (query, mode)".into()
     }
     fn assumptions(&self) -> Vec<String> {
         vec![
@@ -495,11 +495,16 @@ impl Prop for C19 {
                     }
                 }
                 Item::Error(m) => {
+                    // "shown as diagnostics": some line carries the error's message (the statement fixes
+                    // neither a header format nor a stream)
                     let head = format!("error: {m}");
+                    // (a header line: starts at the margin with a letter, unlike the indented source
+                    // excerpt and label lines of a diagnostic body, which may repeat the message)
+                    let is_head = |l: &str| !m.is_empty() && l.contains(m.as_str()) && l.chars().next().map(|c| c.is_alphanumeric()).unwrap_or(false);
                     let mut found = None;
                     let mut j = pos;
                     while j < lines.len() {
-                        if lines[j].trim_end() == head {
+                        if is_head(lines[j]) {
                             found = Some(j);
                             break;
                         }
@@ -510,8 +515,8 @@ impl Prop for C19 {
                     }
                     match found {
                         Some(j) => pos = j + 1,
-                        None if elines[epos..].iter().any(|l| l.trim_end() == head) => {
-                            epos += elines[epos..].iter().position(|l| l.trim_end() == head).unwrap() + 1;
+                        None if elines[epos..].iter().any(|l| is_head(l)) => {
+                            epos += elines[epos..].iter().position(|l| is_head(l)).unwrap() + 1;
                         }
                         None => return fw::fail(sig("diagnostic"), format!("{}: result #{i} is the error {m:?} but no `{head}` diagnostic follows in order; stdout is {:?}, stderr is {:?}", case.key, stdout, stderr_clean)),
                     }
